@@ -21,6 +21,10 @@ BATCHABLE = ('acq', 'rel', 'reldiscard', 'timer', 'cdone', 'ddone')
 _P = {}
 MAXBATCH = [1]
 WITH_PRUNE = [True]   # C16's quantifier does not include pruning
+# C16 explores for liveness only: capacity / lending / accounting (I1-I3) are
+# C15's invariants and must not cut the exploration short here - an accounting
+# slip is exactly what makes a later request hang
+SAFETY = [True]
 
 
 def P():
@@ -72,6 +76,7 @@ class World:
         self.quiescent = True
         self.nbatch = 0
         self.with_prune = WITH_PRUNE[0]
+        self.safety = SAFETY[0]
 
     # backend callbacks -----------------------------------------------------
     async def connect(self, db):
@@ -268,17 +273,21 @@ class World:
                  if s == 'open' and c not in self.broken]
         closing = [c for c, s in self.state.items() if s == 'closing']
         broken_open = [c for c in self.broken if self.state.get(c) == 'open']
-        if opening + len(open_) > self.maxcap:
+        if not self.safety:
+            pass
+        elif opening + len(open_) > self.maxcap:
             self.viol = ('I1 more connections open or being opened than the '
                          'maximum', opening + len(open_), self.maxcap)
             return
         true_usage = opening + len(open_) + len(closing) + len(broken_open)
-        if self.pool.current_capacity != true_usage:
+        if not self.safety:
+            pass
+        elif self.pool.current_capacity != true_usage:
             self.viol = ('I3 reported usage differs from true usage',
                          self.pool.current_capacity, true_usage)
             return
         for c, (db, conn) in self.held.items():
-            if self.state.get(conn) != 'open':
+            if self.safety and self.state.get(conn) != 'open':
                 self.viol = ('I2 held connection is not open', conn,
                              self.state.get(conn))
                 return
@@ -443,6 +452,7 @@ def expand(arg):
     [hist...]).  For each successor: (hist, keyhash, viol, live)."""
     cfg, maxfaults, liveness, hists, plen, MAXBATCH[0] = arg
     WITH_PRUNE[0] = not liveness
+    SAFETY[0] = not liveness
     out = []
     modes = set()
     anom = {}
@@ -489,6 +499,7 @@ def explore(ctx, cfg, depth, maxfaults, liveness, cap=None, prefix=()):
     `prefix` (default: the initial state).  Returns dict of results."""
     seen = set()
     WITH_PRUNE[0] = not liveness
+    SAFETY[0] = not liveness
     prefix = tuple(tuple(e) for e in prefix)
     w0 = build(prefix, cfg)
     if w0.viol:
